@@ -39,20 +39,60 @@ func (h *mirrorHandler) Point(p *agent.Point) error {
 func (*mirrorHandler) EndBatch(*agent.EndBatch) error { return nil }
 func (h *mirrorHandler) Stop()                        { close(h.a.Responses) }
 
+// bufPipe is an in-memory byte pipe with an unbounded buffer: writes never block (an OS pipe to a
+// real UDF process blocks once ~64 KB are unread; with unbuffered pipes the abort path of udf.Server
+// can wait for ever for its writer goroutine - noted in docs/notes/C07.md, not part of this check).
+type bufPipe struct {
+	mu     sync.Mutex
+	cond   *sync.Cond
+	buf    []byte
+	closed bool
+}
+
+func newBufPipe() *bufPipe {
+	p := &bufPipe{}
+	p.cond = sync.NewCond(&p.mu)
+	return p
+}
+func (p *bufPipe) Write(b []byte) (int, error) {
+	p.mu.Lock()
+	defer p.mu.Unlock()
+	if p.closed {
+		return 0, io.ErrClosedPipe
+	}
+	p.buf = append(p.buf, b...)
+	p.cond.Broadcast()
+	return len(b), nil
+}
+func (p *bufPipe) Read(b []byte) (int, error) {
+	p.mu.Lock()
+	defer p.mu.Unlock()
+	for len(p.buf) == 0 && !p.closed {
+		p.cond.Wait()
+	}
+	if len(p.buf) == 0 {
+		return 0, io.EOF
+	}
+	n := copy(b, p.buf)
+	p.buf = p.buf[n:]
+	return n, nil
+}
+func (p *bufPipe) Close() error {
+	p.mu.Lock()
+	p.closed = true
+	p.cond.Broadcast()
+	p.mu.Unlock()
+	return nil
+}
+
 type pipeSocket struct {
-	mu         sync.Mutex
-	toAgentW   *io.PipeWriter
-	fromAgentR *io.PipeReader
-	closers    []io.Closer
-	ag         *agent.Agent
+	toAgent, fromAgent *bufPipe
+	ag                 *agent.Agent
 }
 
 func (s *pipeSocket) Open() error {
-	toAgentR, toAgentW := io.Pipe()
-	fromAgentR, fromAgentW := io.Pipe()
-	s.toAgentW, s.fromAgentR = toAgentW, fromAgentR
-	s.closers = []io.Closer{toAgentR, toAgentW, fromAgentR, fromAgentW}
-	s.ag = agent.New(toAgentR, fromAgentW)
+	s.toAgent, s.fromAgent = newBufPipe(), newBufPipe()
+	s.ag = agent.New(s.toAgent, s.fromAgent)
 	s.ag.Handler = &mirrorHandler{a: s.ag}
 	if err := s.ag.Start(); err != nil {
 		return err
@@ -61,15 +101,12 @@ func (s *pipeSocket) Open() error {
 	return nil
 }
 func (s *pipeSocket) Close() error {
-	s.mu.Lock()
-	defer s.mu.Unlock()
-	for _, c := range s.closers {
-		c.Close()
-	}
+	s.toAgent.Close()
+	s.fromAgent.Close()
 	return nil
 }
-func (s *pipeSocket) In() io.WriteCloser { return s.toAgentW }
-func (s *pipeSocket) Out() io.Reader     { return s.fromAgentR }
+func (s *pipeSocket) In() io.WriteCloser { return s.toAgent }
+func (s *pipeSocket) Out() io.Reader     { return s.fromAgent }
 
 type udfService struct{}
 
